@@ -119,7 +119,11 @@ func (ee *exprEval) evalTransform(assign Scope, x *sysl.Expr_Transform_, e *sysl
 	}
 	argValue := Eval(ee, assign, arg)
 	dotValue, hasDot := assign["."]
+	scopeVarValue, hasScopeVar := assign[x.Transform.Scopevar]
 	defer func() {
+		if hasScopeVar {
+			assign[x.Transform.Scopevar] = scopeVarValue
+		}
 		if hasDot {
 			assign["."] = dotValue
 		}
